@@ -26,7 +26,7 @@ import (
 //	                                    until every call that does not depend on a slow key
 //	                                    has returned; <seed> drives start jitter
 //	C17.sema <cap> <mode> <n> <rounds> <seed>   scripted semaphore use, modes plain, fullpre,
-//	                                    fulllate, freepre, mixed, idlerel
+//	                                    fulllate, freepre, mixed, idlerel, xrel
 //	C17.handoff                         capacity 0: a parked Acquire completed by a Release
 //	C17.hist.once <events>              a history recorded from the real code by Gen,
 //	C17.hist.sema <cap> <events>        validated by the Lean acceptor
@@ -607,6 +607,19 @@ func runC17Sema(c c17SemaCase, rec *c17Recorder) c17SemaObs {
 			spinC17(pick(rng, 0, 100, 1000, 10000, 100000))
 			r.doCancel()
 			waitDone()
+		case "xrel":
+			// more Releases than held slots, from several goroutines at once: Release never
+			// blocks, however many other Releases race with it for the last held slot
+			for t := 0; t < c.n; t++ {
+				worker(t, true, func() {
+					for i := 0; i < c.rounds; i++ {
+						r.release(t, false)
+					}
+				})
+			}
+			fill()
+			close(startW)
+			waitDone()
 		case "idlerel":
 			for i := 0; i < c.rounds; i++ {
 				r.release(main, false)
@@ -683,6 +696,8 @@ func evalC17SemaRun(c c17SemaCase) Result {
 		direct = fail("full-done-must-err", "ok=%d err=%d, want ok=%d err=%d: context done and no slot free", o.ok, o.err, c.cap, calls)
 	case c.mode == "fulllate" && (o.err != int64(c.n) || o.ok != int64(c.cap)):
 		direct = fail("full-done-must-err", "ok=%d err=%d, want ok=%d err=%d: context cancelled while no slot free", o.ok, o.err, c.cap, c.n)
+	case c.mode == "xrel" && (o.ok != int64(c.cap) || o.err != 0):
+		direct = fail("xrel-counts", "ok=%d err=%d, want ok=%d err=0", o.ok, o.err, c.cap)
 	case c.mode == "idlerel" && (o.ok != int64(c.cap) || o.err != 1):
 		direct = fail("idle-release", "after %d Releases of an empty semaphore: ok=%d err=%d, want ok=%d err=1", c.rounds, o.ok, o.err, c.cap)
 	case (c.mode == "freepre" || c.mode == "mixed") && o.ok+o.err != calls:
@@ -691,6 +706,9 @@ func evalC17SemaRun(c c17SemaCase) Result {
 	class := "trivial-sema-nooverlap"
 	if o.overlap && c.mode != "idlerel" { // idlerel is a single goroutine
 		class = "sema-" + c.mode
+	}
+	if c.mode == "xrel" && c.n >= 2 {
+		class = "sema-xrel"
 	}
 	return Result{Impl: impl, Direct: direct, Class: class}
 }
@@ -872,7 +890,7 @@ func genC17OnceCase(rng *rand.Rand, big bool) c17OnceCase {
 
 func genC17SemaCase(rng *rand.Rand) c17SemaCase {
 	c := c17SemaCase{seed: rng.Uint64N(1 << 32)}
-	c.mode = pick(rng, "plain", "plain", "fullpre", "fulllate", "freepre", "mixed", "mixed", "idlerel")
+	c.mode = pick(rng, "plain", "plain", "fullpre", "fulllate", "freepre", "mixed", "mixed", "idlerel", "xrel", "xrel")
 	c.cap = pick(rng, 0, 1, 1, 2, 3, 5, 8)
 	c.n = pick(rng, 1, 2, 3, 4, 8, 16)
 	c.rounds = pick(rng, 1, 2, 3, 5, 10)
@@ -884,6 +902,11 @@ func genC17SemaCase(rng *rand.Rand) c17SemaCase {
 	}
 	if c.mode == "idlerel" {
 		c.n = 0
+	}
+	if c.mode == "xrel" {
+		c.n = pick(rng, 2, 2, 3, 4, 8)
+		c.cap = pick(rng, 1, 1, 1, 2, 3)
+		c.rounds = pick(rng, 1, 1, 2, 3)
 	}
 	return c
 }
@@ -909,7 +932,7 @@ func genC17(rng *rand.Rand, tier string) (cases []string) {
 	}
 	for i := 0; i < nHist; i++ {
 		c := genC17SemaCase(rng)
-		if c.mode == "idlerel" { // Release without a holder: outside the disciplined acceptor
+		if c.mode == "idlerel" || c.mode == "xrel" { // Release without a holder: outside the disciplined acceptor
 			c.mode = "fulllate"
 			c.n, c.rounds = 3, 1
 		}
